@@ -21,6 +21,7 @@ import (
 	"io"
 	"math/big"
 	"net"
+	"os"
 	"sync"
 	"time"
 
@@ -636,6 +637,118 @@ func runDial(cases string, out *vio.Out, le *logrus.Entry) {
 	}
 }
 
+// runLinks: histories of QuicLinks.tla against a real pconn transport + real transport controller: remote endpoints
+// (address, identity) connect to the node under test and go away; after each event the controller's registry is read.
+func runLinks(cases string, out *vio.Out, le *logrus.Entry) {
+	type ev struct{ K, A, I string }
+	var hists [][]ev
+	for _, raw := range vio.ReadCases(cases) {
+		var h struct{ Hist []ev }
+		if err := json.Unmarshal(raw, &h); err != nil {
+			vio.Fatal("%v", err)
+		}
+		hists = append(hists, h.Hist)
+	}
+	results := make([][]map[string]any, len(hists))
+	sem := make(chan struct{}, 12)
+	var wg sync.WaitGroup
+	for i, h := range hists {
+		wg.Add(1)
+		sem <- struct{}{}
+		go func(i int, h []ev) {
+			defer wg.Done()
+			defer func() { <-sem }()
+			n := &memNet{eps: map[string]*endpoint{}}
+			ctx, cancel := context.WithCancel(context.Background())
+			defer cancel()
+			lk := vio.Key("quicnet/ctl")
+			tb, err := testbed.NewTestbed(ctx, le, testbed.TestbedOpts{PrivKey: lk, NoEcho: true})
+			if err != nil {
+				vio.Fatal("%v", err)
+			}
+			defer tb.Release()
+			localID, _ := peer.IDFromPrivateKey(lk)
+			ep := n.bind("addrCtl")
+			ctor := func(ctx context.Context, le *logrus.Entry, pkey crypto.PrivKey, h transport.TransportHandler) (transport.Transport, error) {
+				t, err := pconn.NewTransport(ctx, le, pkey, h, fastOpts, 9, ep, func(a string) (net.Addr, error) { return memAddr(a), nil }, nil)
+				if err != nil {
+					return nil, err
+				}
+				return &dialerTpt{t}, nil
+			}
+			ctrl := tptc.NewController(le, tb.Bus, controller.NewInfo("verif/quic", semver.MustParse("0.0.1"), ""), localID, false, ctor)
+			rel, err := tb.Bus.AddController(ctx, ctrl, nil)
+			if err != nil {
+				vio.Fatal("%v", err)
+			}
+			defer rel()
+			if _, err := ctrl.GetTransport(ctx); err != nil {
+				vio.Fatal("%v", err)
+			}
+			ids := map[string]peer.ID{"X": vio.PeerID("quicnet/X"), "Y": vio.PeerID("quicnet/Y")}
+			nodes := map[string]*qnode{}
+			lnks := map[string]link.Link{}
+			evs := []map[string]any{{"e": "reset", "i": i}}
+			for _, e := range h {
+				ok := true
+				switch e.K {
+				case "conn":
+					if old := nodes[e.A]; old != nil {
+						old.stop() // the previous owner of the address vanishes silently
+					}
+					nd := startNode(n, le, e.I, "addr"+e.A)
+					nodes[e.A] = nd
+					dctx, dcancel := context.WithTimeout(ctx, 5*time.Second)
+					l, _, err := nd.tpt.DialPeer(dctx, localID, "addrCtl")
+					dcancel()
+					ok = err == nil && l != nil
+					lnks[e.A] = l
+				case "silent":
+					nodes[e.A].stop()
+					delete(nodes, e.A)
+				case "close":
+					if l := lnks[e.A]; l != nil {
+						_ = l.Close()
+					}
+					time.Sleep(20 * time.Millisecond)
+					nodes[e.A].stop()
+					delete(nodes, e.A)
+				}
+				evs = append(evs, map[string]any{"e": "ev", "k": e.K, "a": e.A, "i": e.I, "ok": ok})
+				time.Sleep(750 * time.Millisecond) // > idle timeout: every loss has been noticed
+				rep := []map[string]any{}
+				for name, id := range ids {
+					for _, l := range ctrl.GetPeerLinks(id) {
+						closed := false
+						if c, ok := l.(interface{ GetContext() context.Context }); ok {
+							closed = c.GetContext().Err() != nil
+						}
+						a := ""
+						if ra, ok := l.(interface{ RemoteAddr() net.Addr }); ok && ra.RemoteAddr() != nil {
+							a = ra.RemoteAddr().String()
+						}
+						if len(a) > 4 {
+							a = a[4:]
+						}
+						rep = append(rep, map[string]any{"addr": a, "id": name, "closed": closed})
+					}
+				}
+				evs = append(evs, map[string]any{"e": "obs", "reported": rep})
+			}
+			for _, nd := range nodes {
+				nd.stop()
+			}
+			results[i] = evs
+		}(i, h)
+	}
+	wg.Wait()
+	for _, evs := range results {
+		for _, e := range evs {
+			out.Emit(e)
+		}
+	}
+}
+
 func main() {
 	mode := flag.String("mode", "certs", "")
 	cases := flag.String("cases", "", "")
@@ -644,9 +757,15 @@ func main() {
 	flag.Parse()
 	lg := logrus.New()
 	lg.SetOutput(io.Discard)
+	if os.Getenv("VERIF_LOG") != "" {
+		lg.SetOutput(os.Stderr)
+		lg.SetLevel(logrus.DebugLevel)
+	}
 	out := vio.NewOut(*outp)
 	if *mode == "certs" {
 		runCerts(*cases, out)
+	} else if *mode == "links" {
+		runLinks(*cases, out, logrus.NewEntry(lg))
 	} else if *mode == "dial" {
 		runDial(*cases, out, logrus.NewEntry(lg))
 	} else {
